@@ -42,6 +42,7 @@ from sentinels import NOTHING
 import mongomock  # Used for utcnow - please see https://github.com/mongomock/mongomock#utcnow
 from mongomock import aggregate
 from mongomock import codec_options as mongomock_codec_options
+from mongomock import command_cursor
 from mongomock import ConfigurationError, DuplicateKeyError, BulkWriteError
 from mongomock import filtering
 from mongomock.filtering import filter_applies
@@ -1960,12 +1961,16 @@ class Collection(object):
                 'The let argument of aggregate is valid but has not been implemented in mongomock '
                 'yet')
         # A datetime written in the pipeline is a datetime handed to the library like any other:
-        # UTC milliseconds, read the way this collection reads the ones it stores.
+        # UTC milliseconds. The pipeline runs over the documents as they are stored (naive UTC
+        # datetimes), so that the datetimes it computes compare with the ones it reads, and its
+        # results are handed out the way find hands out documents.
         pipeline = helpers.patch_datetime_awareness_in_document(pipeline)
+        in_collection = list(self._get_dataset({}, None, None, dict))
+        results = aggregate.process_pipeline(in_collection, self.database, pipeline, session)
         if self.codec_options.tz_aware:
-            pipeline = helpers.make_datetime_timezone_aware_in_document(pipeline)
-        in_collection = [doc for doc in self.find()]
-        return aggregate.process_pipeline(in_collection, self.database, pipeline, session)
+            results = command_cursor.CommandCursor(
+                helpers.make_datetime_timezone_aware_in_document(list(results)))
+        return results
 
     def with_options(
             self, codec_options=None, read_preference=None, write_concern=None, read_concern=None):
